@@ -11,6 +11,8 @@ from __future__ import annotations
 import ast
 import importlib
 import inspect
+import json
+import re
 import os
 import sys
 import textwrap
@@ -75,25 +77,82 @@ class _StripNoise(ast.NodeTransformer):
 
 
 class _InlineIntNames(ast.NodeTransformer):
-    """Replace a bare name that is bound to an int in the function's module globals (a named constant such as
-    `MAX_SIZE = 8191`) by that int, so that naming a literal does not change the extracted literal lists."""
+    """Replace a name that is bound to an int constant - a bare module-level name (`MAX_SIZE = 8191`), or a class
+    attribute read as `self.X` / `cls.X` / `ClassName.X` - by that int, so that naming a literal does not change the
+    extracted literal lists."""
+
+    def __init__(self, glob, owner=None):
+        self.glob = glob
+        self.owner = owner          # the class the function belongs to, if any
+
+    @staticmethod
+    def _is_int(v):
+        return isinstance(v, int) and not isinstance(v, bool)
+
+    def visit_Name(self, node):
+        v = self.glob.get(node.id)
+        if isinstance(node.ctx, ast.Load) and self._is_int(v):
+            return ast.copy_location(ast.Constant(value=int(v)), node)
+        return node
+
+    def visit_Attribute(self, node):
+        self.generic_visit(node)
+        if isinstance(node.ctx, ast.Load) and isinstance(node.value, ast.Name):
+            base = node.value.id
+            cls = self.owner if base in ("self", "cls") else self.glob.get(base)
+            if inspect.isclass(cls):
+                try:
+                    v = inspect.getattr_static(cls, node.attr)
+                except AttributeError:
+                    return node
+                if self._is_int(v):
+                    return ast.copy_location(ast.Constant(value=int(v)), node)
+        return node
+
+
+class _InlineStrNames(ast.NodeTransformer):
+    """Replace a bare name bound at module level to a str, or to a tuple / list / set / frozenset of str (a named
+    constant such as `_KILO_UNITS = ("kw", "kwh", "kvar", "kvarh")`), by the literal(s) - sets in sorted order - so
+    that naming string literals does not empty the extracted string lists the models read."""
 
     def __init__(self, glob):
         self.glob = glob
 
     def visit_Name(self, node):
+        if not isinstance(node.ctx, ast.Load):
+            return node
         v = self.glob.get(node.id)
-        if isinstance(node.ctx, ast.Load) and isinstance(v, int) and not isinstance(v, bool):
-            return ast.copy_location(ast.Constant(value=int(v)), node)
+        if isinstance(v, str):
+            return ast.copy_location(ast.Constant(value=v), node)
+        if isinstance(v, (tuple, list, set, frozenset)) and v and all(isinstance(x, str) for x in v):
+            xs = sorted(v) if isinstance(v, (set, frozenset)) else list(v)
+            return ast.copy_location(ast.Tuple(elts=[ast.Constant(value=x) for x in xs], ctx=ast.Load()), node)
         return node
+
+
+def _owner_class(obj, glob):
+    qn = getattr(inspect.unwrap(obj), "__qualname__", "")
+    parts = qn.split(".")
+    if len(parts) >= 2 and glob:
+        c = glob.get(parts[0])
+        for name in parts[1:-1]:
+            c = getattr(c, name, None)
+        return c if inspect.isclass(c) else None
+    return None
 
 
 def func_ast(obj) -> ast.AST:
     src = textwrap.dedent(inspect.getsource(obj))
     tree = _StripNoise().visit(ast.parse(src))
-    glob = getattr(inspect.unwrap(obj), "__globals__", None)
+    if inspect.isclass(obj):
+        glob = vars(sys.modules.get(obj.__module__, None)) if obj.__module__ in sys.modules else None
+        owner = obj
+    else:
+        glob = getattr(inspect.unwrap(obj), "__globals__", None)
+        owner = _owner_class(obj, glob)
     if glob:
-        tree = _InlineIntNames(glob).visit(tree)
+        tree = _InlineIntNames(glob, owner).visit(tree)
+        tree = _InlineStrNames(glob).visit(tree)
     return ast.fix_missing_locations(tree)
 
 
@@ -111,11 +170,40 @@ def int_consts(tree: ast.AST, pred=lambda n, parent: True):
 
 def str_consts(tree: ast.AST):
     res = []
-    for node in ast.walk(tree):
+
+    def walk(node, loc):
+        # (inlined constants have no location of their own: they inherit the location of the name they replace)
+        loc = (getattr(node, "lineno", loc[0]), getattr(node, "col_offset", loc[1]))
         if isinstance(node, ast.Constant) and isinstance(node.value, str):
-            res.append((node.lineno, node.col_offset, node.value))
+            res.append((loc[0], loc[1], len(res), node.value))
+        for child in ast.iter_child_nodes(node):
+            walk(child, loc)
+
+    walk(tree, (0, 0))
     res.sort()
-    return [v for _, _, v in res]
+    return [v for _, _, _, v in res]
+
+
+def probe_esc_xor(hdlc, problems):
+    """The value the reader XORs an escaped octet with, observed through the public API (independent of where and
+    how the source spells it): with octet stuffing, the frame `7E 7D 00 <10 octets> 7E` comes back with first octet
+    0 xor that value; a second probe with 7D FF cross-checks that it is an XOR with a constant."""
+    import logging
+    logging.disable(logging.CRITICAL)
+    try:
+        def first(octet):
+            r = hdlc.HdlcFrameReader(use_octet_stuffing=True)
+            frames = r.read(bytes([0x7E, 0x7D, octet]) + bytes(range(1, 11)) + bytes([0x7E]))
+            return frames[0].as_bytes[0]
+        a, b = first(0x00), first(0xFF)
+        if a ^ b != 0xFF:
+            problems.append(f"escXor: un-escaping is not XOR with a constant (00 -> {a}, FF -> {b})")
+        return int(a)
+    except Exception as ex:  # noqa
+        problems.append(f"escXor: probe failed: {type(ex).__name__}: {ex}")
+        return 0
+    finally:
+        logging.disable(logging.NOTSET)
 
 
 def one(xs, what, problems, name, default=0):
@@ -197,8 +285,7 @@ def generate() -> tuple[str, list[str]]:
         emit(f"def maxFrameLen : Nat := {int(hdlc.HdlcFrame.MAX_FRAME_LENGTH)}")
         emit(f"def escOctet : Nat := {int(hdlc.HdlcFrameReader.CONTROL_ESCAPE)}")
         emit(f"def flagOctet : Nat := {int(hdlc.HdlcFrameReader.FLAG_SEQUENCE)}")
-        t = func_ast(hdlc.HdlcFrameReader._append_to_frame)
-        emit(f"def escXor : Nat := {one(int_consts(t), 'escape xor literal', problems, 'escXor')}")
+        emit(f"def escXor : Nat := {probe_esc_xor(hdlc, problems)}")
         H = hdlc.HdlcFrameHeader
         emit(f"def hdlcFrameLengthLiterals : List Nat := {lean_nat_list(int_consts(func_ast(unwrap_fn(H.frame_length))))}")
         emit(f"def hdlcFrameFormatLiterals : List Nat := {lean_nat_list(int_consts(func_ast(unwrap_fn(H.frame_format))))}")
@@ -220,8 +307,10 @@ def generate() -> tuple[str, list[str]]:
         emit(f"def p1Start : Nat := {int(dlde.START_CHARACTER_HEX)}")
         emit(f"def p1End : Nat := {int(dlde.END_CHARACTER_HEX)}")
         emit(f"def p1Lf : Nat := {int(dlde.LF_CHARACTER)}")
-        t = func_ast(dlde.ModeDReader.read)
-        emit(f"def p1Guard : Nat := {one([v for v in int_consts(t) if v > 255], 'P1 size guard literal', problems, 'p1Guard')}")
+        # the size guard: the one integer > 255 anywhere in the class (the guard may live in a helper method or be a
+        # named constant: module-level and class-level names are inlined)
+        t = func_ast(dlde.ModeDReader)
+        emit(f"def p1Guard : Nat := {one(sorted(set(v for v in int_consts(t) if v > 255)), 'P1 size guard literal', problems, 'p1Guard')}")
         t = func_ast(dlde.DataReadout._calculate_crc16)
         emit(f"def crc16Poly : Nat := {one([v for v in int_consts(t) if v > 256], 'crc16 polynomial literal', problems, 'crc16Poly')}")
         emit(f"def crc16Literals : List Nat := {lean_nat_list(int_consts(t))}")
@@ -306,6 +395,25 @@ def generate() -> tuple[str, list[str]]:
         emit(f"def backoffInitLiterals : List Nat := {lean_nat_list(int_consts(func_ast(mc.ExponentialBackOff.__init__)))}")
         emit(f"def getBackOffTimeLiterals : List Nat := {lean_nat_list(int_consts(func_ast(mc.ConnectionManager._get_back_off_time)))}")
         emit("")
+    # definitions a failed section could not produce: emit a typed placeholder (so that Generated.lean and the model
+    # driver still build and unrelated properties are unaffected) and a problem under that name - the properties whose
+    # theorems use the name then have an obligation that no longer checks
+    names_file = os.path.join(os.path.dirname(os.path.abspath(__file__)), "generated_names.json")
+    emitted = {}
+    for line in L:
+        m = re.match(r"def (\w+) : (.*?) :=", line)
+        if m:
+            emitted[m.group(1)] = m.group(2)
+    try:
+        expected = json.load(open(names_file))
+    except (OSError, ValueError):
+        expected = {}
+    for name, typ in expected.items():
+        if name not in emitted:
+            emit(f"def {name} : {typ} := default   -- placeholder: could not be extracted from the changed source")
+            problems.append(f"{name}: the translator could not produce this definition from the changed source")
+    if not problems and emitted != expected and os.environ.get("AMSHAN_WRITE_NAMES") == "1":
+        json.dump(emitted, open(names_file, "w"), indent=1, sort_keys=True)
     emit("def extractionProblems : List String := [" + ", ".join(lean_str(p) for p in problems) + "]")
     emit("")
     emit("end Amshan.Gen")
